@@ -34,6 +34,7 @@ type epoch struct {
 	// position in the write log and in the declaration list when the epoch began
 	logStart  int
 	itemStart int
+	refStable map[string]bool
 }
 
 type writeRec struct{ key, ref string }
@@ -198,16 +199,29 @@ func (x *Exec) mergeHeaps(conds []string, hs []*Heap) *Heap {
 		// heaps of different havoc epochs meet (one branch called something that may change
 		// everything, the other did not): a key first touched after the join is, under each
 		// branch's condition, that branch's own base
+		byEp := map[*epoch]int{}
+		add := func(c string, e *epoch) {
+			if i, ok := byEp[e]; ok {
+				out.alts[i].cond = x.g.Fresh(SortBool, or(out.alts[i].cond, c))
+				return
+			}
+			byEp[e] = len(out.alts)
+			out.alts = append(out.alts, heapAlt{x.g.Fresh(SortBool, c), e})
+		}
 		for i, h := range hs {
 			if len(h.alts) > 0 {
 				for _, a := range h.alts {
-					out.alts = append(out.alts, heapAlt{and(conds[i], a.cond), a.ep})
+					add(and(conds[i], a.cond), a.ep)
 				}
 			} else {
-				out.alts = append(out.alts, heapAlt{conds[i], h.ep})
+				add(conds[i], h.ep)
 			}
 		}
 		out.ep = commonEpoch(ep, hs[len(hs)-1].ep)
+		if len(out.alts) == 1 {
+			out.ep = out.alts[0].ep
+			out.alts = nil
+		}
 	}
 	keys := map[string]hent{}
 	for _, h := range hs {
@@ -341,8 +355,17 @@ func (x *Exec) stableRefs(ep *epoch, k string) ([]string, bool) {
 		}
 	}
 	g := x.g
+	if ep.refStable == nil {
+		ep.refStable = map[string]bool{}
+	}
 	for _, r := range refs {
 		if isAllocRef(r) || isLiteral(r) {
+			continue
+		}
+		if st, seen := ep.refStable[r]; seen {
+			if !st {
+				return nil, false
+			}
 			continue
 		}
 		ok := true
@@ -360,6 +383,7 @@ func (x *Exec) stableRefs(ep *epoch, k string) ([]string, bool) {
 			}
 			ok = false
 		}
+		ep.refStable[r] = ok
 		if !ok {
 			return nil, false
 		}
